@@ -128,7 +128,8 @@ class C05(Prop):
             img = {}
             if os.path.isdir(snapdir):
                 for f in sorted(os.listdir(snapdir)):
-                    img[f] = open(os.path.join(snapdir, f), "rb").read()
+                    if os.path.isfile(os.path.join(snapdir, f)):        # (a sub-directory is no snapshot file)
+                        img[f] = open(os.path.join(snapdir, f), "rb").read()
             return q.returncode, q.stdout, img
 
         shutil.rmtree(snapdir, ignore_errors=True)
